@@ -3,6 +3,7 @@
 //! back to the abstract vocabulary. It contains no oracle of its own.
 
 mod ast_walk_gen;
+mod hist_obs;
 mod memfs;
 mod parse_obs;
 mod pool;
@@ -26,6 +27,7 @@ fn handle(item: &Value) -> Value {
         "session" => srv::session_item(item),
         "pos" => pos_obs::pos_item(item),
         "pp" => pp_obs::pp_item(item),
+        "wshist" => hist_obs::hist_item(item),
         other => json!({"id": item.get("id"), "outcome": "ToolError", "msg": format!("unknown kind {other}")}),
     }
 }
